@@ -18,6 +18,10 @@ impl Layers {
         proof { assert(((a | b) & b) == b) by(bit_vector); }
         self.bits = a | b;
     }
+    /// `self &= !other` (bitflags: remove)
+    pub fn remove(&mut self, other: Layers)
+        ensures final(self).bits == old(self).bits & !other.bits,
+    { self.bits = self.bits & !other.bits; }
     pub const fn contains(&self, other: Layers) -> (r: bool) ensures r == ((self.bits & other.bits) == other.bits) { (self.bits & other.bits) == other.bits }
 }
 pub open spec fn has_encrypt(l: Layers) -> bool { (l.bits & Layers::ENCRYPT.bits) == Layers::ENCRYPT.bits }
